@@ -66,9 +66,22 @@ func c11(args []string) {
 					// the flavor declares instance variable v: default = its own name, gettable and initable
 					src = fmt.Sprintf(`(defflavor %s ((v "%s")) (%s) :gettable-instance-variables :initable-instance-variables)`,
 						real(op.F), op.F, strings.Join(cs, " "))
+				} else if op.D == "bare" {
+					// the flavor declares v without a default
+					src = fmt.Sprintf(`(defflavor %s (v) (%s) :gettable-instance-variables :initable-instance-variables)`,
+						real(op.F), strings.Join(cs, " "))
 				} else {
 					src = fmt.Sprintf("(defflavor %s () (%s))", real(op.F), strings.Join(cs, " "))
 				}
+			case "badmethod":
+				// a daemon keyword that does not exist: the form must be rejected
+				src = fmt.Sprintf(`(defmethod (%s :befor :m) () (vmark "%s:never"))`, real(op.F), op.F)
+				if o := h.Eval(s, src); o.OK() {
+					defs = append(defs, "accepted-a-rejected-form")
+				} else {
+					defs = append(defs, "")
+				}
+				continue
 			case "defmethod":
 				switch op.D {
 				case "primary":
